@@ -86,6 +86,10 @@ class Store:
             tick = self.tick
         elif mtime_mode == "same":
             tick = cur["tick"]
+        elif mtime_mode == "tiny":        # saved again 100 microseconds later
+            tick = cur["tick"] + 0.0001
+        elif mtime_mode == "tiny_back":   # replaced by a file that is 100 microseconds older
+            tick = cur["tick"] - 0.0001
         else:  # back
             tick = cur["tick"] - 1
         if cur is not None:
@@ -342,7 +346,7 @@ class C23:
         "requests whose name itself starts with '<namespace>/' are not generated (inherent cache-key ambiguity)",
     ]
     REQUIRED_REACH = ["fault.uptodate_raised", "reach.hit", "reach.reload", "reach.evict", "reach.sync_during_async", "reach.ns_switch",
-                      "reach.edit_in_flight", "reach.same_tick_edit", "reach.back_tick_edit",
+                      "reach.edit_in_flight", "reach.same_tick_edit", "reach.back_tick_edit", "reach.sub_millisecond_edit",
                       "fault.cancel_landed", "fault.store_notfound", "fault.store_oserror", "fault.fs_errno",
                       "reach.thread_switch_inside_request", "reach.thread_lock_contended"]
 
@@ -400,7 +404,7 @@ class C23:
                 op = gen_req()
             elif x < 0.86:
                 op = {"op": "edit", "ident": rng.choice(idents),
-                      "mtime": rng.weighted([("next", 6), ("same", 2), ("back", 2)])}
+                      "mtime": rng.weighted([("next", 6), ("same", 2), ("back", 2), ("tiny", 1.5), ("tiny_back", 1)])}
             elif x < 0.93:
                 op = {"op": "delete", "ident": rng.choice(idents)}
             elif config == "fault":
@@ -484,7 +488,8 @@ class C23:
         elif realm == "dict":
             dict.__setitem__(w.dict_realm, name, v["text"])
         if had and w.loop:
-            bump(w.stats, {"same": "reach.same_tick_edit", "back": "reach.back_tick_edit"}.get(mode, "edit.next"))
+            bump(w.stats, {"same": "reach.same_tick_edit", "back": "reach.back_tick_edit",
+                           "tiny": "reach.sub_millisecond_edit", "tiny_back": "reach.sub_millisecond_edit"}.get(mode, "edit.next"))
         return v
 
     def _apply_delete(self, sc, w, ident):
